@@ -33,7 +33,7 @@ def bounds(tier):
     if tier == "quick":
         return dict(a="N<=4 tensors, steps of arity 1..3 (solver-chosen), all valid position tuples", b="all trees N<=4, orders None/dfs/surface_order/symbolic callable",
                     c="skeletons N<=3 rank<=2 (every 2nd), every permutation/prefix of the labels")
-    return dict(a="N<=5 tensors", b="all trees N<=5", c="skeletons N<=3 rank<=2 and N=4 rank<=2 (every 5th), every permutation/prefix of labels")
+    return dict(a="N<=4 tensors with step arities 1..3; N=5 with arities 1..2", b="all trees N<=5", c="skeletons N<=3 rank<=2 and N=4 rank<=2 (every 5th), every permutation/prefix of labels")
 
 
 def items(tier, seed):
@@ -41,7 +41,7 @@ def items(tier, seed):
     nmax = 4 if tier == "quick" else 5
     for n in range(2, nmax + 1):
         # partition the space of paths by (arity, first entry) of the first step
-        for ar0 in range(1, min(3, n) + 1):
+        for ar0 in range(1, min(3 if n <= 4 else 2, n) + 1):
             for p0 in range(n):
                 its.append({"kind": "linssa", "n": n, "tier": tier, "ar0": ar0, "p0": p0})
     for n in range(2, nmax + 1):
@@ -102,7 +102,7 @@ def run_linssa(item, rec):
         path = []
         k = 0
         while remaining > 1:
-            ar = symx.choose(f"arity{k}", min(3, remaining)) + 1
+            ar = symx.choose(f"arity{k}", min(3 if n <= 4 else 2, remaining)) + 1
             if k == 0 and ar != item["ar0"]:
                 raise symx.PathAbort()
             step = []
